@@ -26,7 +26,7 @@ import (
 type histCase struct {
 	Steps   []histStep `json:"steps"`
 	Wide    int        `json:"wide_position_static_alternatives,omitempty"` // the history ends with this many static alternatives under /wide (plus a placeholder one), some of them constrained
-	RawPath bool       `json:"set_raw_path,omitempty"` // requests also carry URL.RawPath (valid non-canonical encoding of Path)
+	RawPath bool       `json:"set_raw_path,omitempty"`                      // requests also carry URL.RawPath (valid non-canonical encoding of Path)
 }
 
 type histStep struct {
